@@ -260,6 +260,11 @@ def generate(rng, tier):
         ops.append({"op": "mk", "kind": "base", "node": len(nodes), "impl": i,
                     "addr": f"{scheme}://h{host}.test:80{host}0" + rng.choice(["", "", "", "/base", "/a/b"]),
                     "form": form, "ids": ids})
+        if rng.random() < 0.25:
+            # the application's own connection class: a subclass of HttpConn whose constructor calls super() and
+            # then attaches the service's standard adapter with add_adapter()
+            # (a response unwrapper: applying it twice shows)
+            ops[-1]["appconn"] = {"a": "wrap", "tag": f"app{i}"}
         nodes.append(_GNode("base", False, i, born=len(ops)))
     long_run = rng.random() < 0.04
     threaded = rng.random() < (0.33 if not long_run else 0.1)
@@ -482,7 +487,19 @@ class World:
             if k2 == "base":
                 addr = op["addr"]
                 form = op["form"]
-                if form == "str":
+                if op.get("appconn"):
+                    std = hw.make_adapter(op["appconn"], self.classes)
+
+                    class AppConn(ch.HttpConn):
+                        """the application's connection class"""
+                        def __init__(self, conn_data, *, adapters=None):
+                            super().__init__(conn_data, adapters=adapters)
+                            self.add_adapter(std)
+                    conn_data = {"str": addr, "str_slash": addr + "/", "list": [addr, op["ids"]], "tuple": (addr, op["ids"])}.get(
+                        form, {"address": addr, "_send_request_ids": op["ids"]})
+                    o = self.sut("AppConn(conn_data)", AppConn, conn_data)
+                    self.stats["app_connections"] = self.stats.get("app_connections", 0) + 1
+                elif form == "str":
                     o = self.sut("HttpConn(address)", ch.HttpConn, addr)
                 elif form == "str_slash":
                     o = self.sut("HttpConn(address/)", ch.HttpConn, addr + "/")
@@ -494,6 +511,8 @@ class World:
                     o = self.sut("HttpConn({address})", ch.HttpConn, {"address": addr, "_send_request_ids": op["ids"]})
                 ids = op["ids"] if form in ("list", "tuple", "dict") else True
                 m.mk_base(nid, op["impl"], addr, ids)
+                if op.get("appconn"):
+                    m.add_adapter(nid, adapter_entry(op["appconn"]))
             else:
                 if op["parent"] not in self.objs or m.nodes[op["parent"]].is_mc:
                     return False
